@@ -5,7 +5,58 @@ import MmtkModel.Props.C02Algo
 /-!
 # C03 (algorithm) — what the four allocators return: aligned and inside the granted memory
 
-STATUS: (filled in below)
+Models: `Model/AllocArith.lean` (the allocators of `Model/AllocModel.lean` composed, branch for branch,
+with the real `align_allocation` / `get_maximum_aligned_size` / `bytes_to_pages_up` of
+`Model/Arith.lean`).  C03: *a successful `alloc(size, align, offset)` returns a non-zero address `A`
+with `(A + offset) % align = 0` and `[A, A + size)` inside MMTk-managed memory of the space; the call
+terminates for every legal argument combination*.
+
+STATUS: **proved** (complete proofs; axioms: propext, Classical.choice, Quot.sound), for EVERY input that is
+legal in the sense of `align_allocation`'s own assertions (`LegalAlign`: power-of-two
+`MIN_ALIGNMENT ≤ align ≤ MAX_ALIGNMENT`, `offset` a multiple of `MIN_ALIGNMENT`) plus explicit
+address-range hypotheses (`… < 2^63`: user space) and `MIN_ALIGNMENT`-aligned buffer starts; generic
+in the VM constants and in the build profile (`debug`):
+
+* `alignAllocation_good` — `align_allocation(region, align, offset)` as all allocators call it
+  (`known_alignment = MIN_ALIGNMENT`) never panics and returns `region + padSpec`, the LEAST address
+  `r ≥ region` with `(r + offset) % align = 0`; `r` is `MIN_ALIGNMENT`-aligned and
+  `r - region ≤ align - MIN_ALIGNMENT`.  `maxAlignedSize_val`: `get_maximum_aligned_size = size + align
+  - MIN_ALIGNMENT`.
+* (1) bump pointer — `bump_fast_cases` (the fast path answers `slow` iff `cursor + pad + size > limit`,
+  never panics), `bump_fast_ok` (`(res+offset) % align = 0`, `cursor ≤ res`, `res + size ≤ limit`,
+  new cursor `= res + size`, limit unchanged), `bump_fast_refines` (it IS `AllocModel.bumpAlloc` with
+  `pad = res - cursor`, so C02's `bump_guard`/`bump_seq` apply).  Slow path `acquire_block`:
+  `acquireBlockSize_spec` (`block_size = roundup(size, 32 KB)` covers `size` — the Rust source adds NO
+  alignment slack), `fresh_block_cases` / `fresh_block_fits_iff` — **the precise condition**: the
+  block acquired for a request fits it iff `padSpec start align offset + size ≤ roundup(size, 32 KB)`;
+  `fresh_block_fits_offset_multiple` (always true for `align ∣ offset`),
+  `fresh_block_with_slack_fits` / `fresh_buffer_fits` (a buffer of `get_maximum_aligned_size` bytes
+  always fits: the repair).  **Defect `gc:bump-align-leak`**: `bump_align_leak` (for EVERY 64-aligned
+  block start, `alloc(32744, 64, 8)` answers `slow` on the block acquired for it) and the `decide`
+  witness `bump_align_leak_witness`.  Hence the termination clause of C03 is FALSE for
+  `BumpAllocator` at such inputs (each retry acquires and abandons a block until the space is
+  exhausted); it is not provable and is refuted by these witnesses.  Immix uses the same bump
+  pointer: `immix_hole_fits` (a request with `get_maximum_aligned_size ≤ Line::BYTES` fits every
+  non-empty hole — the `debug_assert!` of `acquire_recyclable_lines`), `immix_clean_block_fits`.
+* (2) large objects — `los_alloc_within_pages` (aligned, `cell ≤ res`,
+  `res + size ≤ cell + pages * 4096` with `pages = ⌈(size + align - MIN_ALIGNMENT)/4096⌉`);
+  the seeded regression `pages = bytes_to_pages_up(size)`: `los_pages_without_slack_too_small`
+  (`decide` witnesses for the harness VM `(8192, 16, 8)`, for the default VMBinding constants
+  `(8192, 8, 4)`, and `(12280, 64, 8)` in release) and the whole family `los_no_slack_overflows`
+  (page-multiple size, `¬ align ∣ offset`).
+* (3) free list — `freelist_alloc_within_cell`: for every request accepted by `mi_bin`
+  (`bin_fits_partial`, C35) and EVERY cell of a block of that bin, `align_allocation` inside the cell
+  stays inside it (the `debug_assert!` of `FreeListAllocator::alloc`) and inside the block.
+  The top of the size range (`alignedSize > MAX_BIN_SIZE`) is the C35 defect
+  `msbins:aligned-size-exceeds-max-bin` and is excluded by hypothesis `hs`, exactly as in C35.
+* (4) `ResultGood` (non-zero, aligned, `[res, res+size) ⊆ granted`) per allocator:
+  `bump_alloc_result_good`, `acquire_block_result_good`, `immix_hole_result_good`,
+  `los_alloc_result_good`, `freelist_alloc_result_good`, and the conjunction `alloc_result_good`.
+
+NOT covered here (and why): that the granted region itself lies in the space (C26/C27 page
+resources, C02 guards), zeroing of the bytes (memory contents are not modelled; observed by the
+monitor, Props/C03.lean), the precise-stress variants of the slow paths, `handle_obvious_oom_request`,
+and `debug_assert!(region.is_aligned_to(ALLOC_END_ALIGNMENT))` (the default `ALLOC_END_ALIGNMENT = 1`).
 -/
 namespace Mmtk.AllocArith
 open Mmtk.Arith Mmtk.AllocModel Mmtk.Bits
@@ -616,5 +667,166 @@ theorem freelist_alloc_within_cell (debug : Bool) (ka size align offset start : 
   · rcases alignedSize_cases size align with ⟨_, e⟩ | ⟨_, e⟩ <;> omega
 
 end FreeList
+
+/-! ## (4) C03's arithmetic clauses, per allocator -/
+
+/-- C03 on one successful allocation, w.r.t. the memory `granted` to the allocator for it: non-zero,
+`(res + offset) % align = 0`, and `[res, res + size) ⊆ granted` (same `Region` vocabulary as the C02
+model, so `granted ⊆ space` carries over by `Region.sub_trans`). -/
+structure ResultGood (granted : Region) (res size align offset : Nat) : Prop where
+  nonzero : res ≠ 0
+  aligned : (res + offset) % align = 0
+  inside : (⟨res, size⟩ : Region).sub granted
+
+/-- **bump allocator / Immix bump pointers**: every fast-path success is good w.r.t. the thread-local
+buffer `[cursor, limit)`; the buffer that remains is inside the old one and disjoint from the object. -/
+theorem bump_alloc_result_good (vm : VMConsts) (debug : Bool) (ka km kx : Nat) (b : Bump)
+    (size align offset : Nat) (H : BumpLegal vm ka km kx b size align offset) (hnz : b.cursor ≠ 0)
+    (res : Nat) (b' : Bump) (h : bumpAllocAligned vm debug b size align offset = .ok res b') :
+    ResultGood b.region res size align offset ∧ b'.region.sub b.region ∧
+      (⟨res, size⟩ : Region).disjoint b'.region := by
+  obtain ⟨h1, h2, h3, h4, h5, _⟩ := bump_fast_ok vm debug ka km kx b size align offset H res b' h
+  refine ⟨⟨by omega, h1, ?_⟩, ?_, ?_⟩ <;>
+    simp only [Region.sub, Region.stop, Region.disjoint, Bump.region] <;> omega
+
+/-- **bump allocator, slow path**: when `acquire_block` succeeds the result is good w.r.t. the
+acquired block `[start, start + block_size)`. -/
+theorem acquire_block_result_good (vm : VMConsts) (debug : Bool) (ka km kx : Nat)
+    (start size align offset : Nat) (H : FreshLegal vm ka km kx start size align offset)
+    (hnz : start ≠ 0) (res : Nat) (b' : Bump)
+    (h : acquireBlock vm debug size align offset start = .ok res b') :
+    ∃ bs, acquireBlockSize debug size = some bs ∧ ResultGood ⟨start, bs⟩ res size align offset ∧
+      b' = ⟨res + size, start + bs⟩ := by
+  obtain ⟨bs, hbs, h1, h2, h3, h4⟩ := fresh_block_ok vm debug ka km kx start size align offset H res b' h
+  refine ⟨bs, hbs, ⟨by omega, h1, ?_⟩, h4⟩
+  simp only [Region.sub, Region.stop]; omega
+
+/-- **Immix, recycled hole**: the allocation into a fresh hole is good w.r.t. the hole's lines. -/
+theorem immix_hole_result_good (vm : VMConsts) (debug : Bool) (ka km kx : Nat)
+    (base lineBytes s e size align offset : Nat) (hse : s < e)
+    (L : LegalAlign vm ka km kx align offset vm.minAlign)
+    (hbase : vm.minAlign ∣ base) (hnz : base ≠ 0) (hline : vm.minAlign ∣ lineBytes)
+    (hsmall : base + e * lineBytes + align < 2^63) (hsz : size < 2^63)
+    (hfit : size + align ≤ lineBytes + vm.minAlign) :
+    ∃ res b', bumpAllocAligned vm debug (holeBump base lineBytes s e) size align offset = .ok res b' ∧
+      ResultGood (holeRegion base lineBytes (s, e)) res size align offset := by
+  obtain ⟨res, b', h, h1, h2, h3, _⟩ :=
+    immix_hole_fits vm debug ka km kx base lineBytes s e size align offset hse L hbase hline hsmall hsz hfit
+  have hcap : s * lineBytes + (e - s) * lineBytes = e * lineBytes := by
+    rw [← Nat.add_mul]; congr 1; omega
+  refine ⟨res, b', h, ⟨by omega, h1, ?_⟩⟩
+  simp only [Region.sub, Region.stop, holeRegion]; omega
+
+/-- **large-object allocator**: every call is good w.r.t. the page run reserved for it. -/
+theorem los_alloc_result_good (vm : VMConsts) (debug : Bool) (ka km kx size align offset cell : Nat)
+    (H : LosLegal vm ka km kx size align offset cell) (hnz : cell ≠ 0) :
+    ∃ pages res, losAllocFull vm debug size align offset cell = some (pages, res) ∧
+      ResultGood (losAlloc cell pages 4096) res size align offset := by
+  obtain ⟨pages, res, h, _, h1, h2, h3, _⟩ := los_alloc_within_pages vm debug ka km kx size align offset cell H
+  refine ⟨pages, res, h, ⟨by omega, h1, ?_⟩⟩
+  simp only [Region.sub, Region.stop, losAlloc]; omega
+
+section FreeList
+open Mmtk.MsBins Mmtk.Gen.Bins
+
+/-- **free-list allocator**: on a block of the size class `mi_bin(size, align)` whose free list holds
+cell indices of the block, `alloc` either finds the list empty or pops a cell and returns an address
+that is good w.r.t. that cell; `pad + size ≤ cell_size` is the premise `hfit` of C02's `cell_guard`. -/
+theorem freelist_alloc_result_good (debug : Bool) (ka size align offset b : Nat) (blk : CellBlock)
+    (halign : align = 2^ka) (hka : 3 ≤ ka ∧ ka ≤ 6) (hoff : 8 ∣ offset) (hoffw : offset < 2^63)
+    (hs : alignedSize size align ≤ maxBinSize) (hd : debug = true → size % minAlign = 0)
+    (hbin : miBin debug size align = some b) (hcell : blk.cell = binSize b)
+    (hbase : 8 ∣ blk.base) (hnz : blk.base ≠ 0) (hend : blk.base + 65536 + 64 < 2^63)
+    (hfl : ∀ k, k ∈ blk.freeList → k < blockBytes / binSize b) :
+    (blk.freeList = [] ∧ cellAllocAligned MsBins.vm debug blk align offset = some none) ∨
+    ∃ k cell res blk', cellAlloc blk = some (cell, blk') ∧ cell = blk.base + k * blk.cell ∧
+      cellAllocAligned MsBins.vm debug blk align offset = some (some (cell, res, blk')) ∧
+      ResultGood (cellRegion blk.base blk.cell k) res size align offset ∧
+      (res - cell) + size ≤ blk.cell := by
+  obtain ⟨b0, hb0, _, hall⟩ :=
+    freelist_alloc_within_cell debug ka size align offset blk.base halign hka hoff hoffw hs hd hbase hend
+  rw [hbin] at hb0
+  cases hb0
+  cases hl : blk.freeList with
+  | nil =>
+    left
+    refine ⟨rfl, ?_⟩
+    simp only [cellAllocAligned, cellAlloc, hl]
+  | cons k rest =>
+    right
+    obtain ⟨res, hr, h1, h2, h3, h4, h5, _⟩ := hall k (hfl k (by rw [hl]; exact List.mem_cons_self))
+    rw [← hcell] at hr h2 h3
+    refine ⟨k, blk.base + k * blk.cell, res, { blk with freeList := rest }, ?_, rfl, ?_, ⟨by omega, h1, ?_⟩, by omega⟩
+    · simp only [cellAlloc, hl]
+    · simp only [cellAllocAligned, cellAlloc, hl, hr]
+    · simp only [Region.sub, Region.stop, cellRegion]; omega
+
+end FreeList
+
+/-- **`alloc_result_good`** — the three allocator families side by side: whenever the bump pointer
+(BumpAllocator, ImmixAllocator), the large-object allocator or the free-list allocator returns an
+address for a legal request, it is non-zero (given a non-zero buffer / cell / block), satisfies
+`(res + offset) % align = 0`, and `[res, res + size)` lies inside the memory granted for it. -/
+theorem alloc_result_good :
+    (∀ (vm : VMConsts) (debug : Bool) (ka km kx : Nat) (b : Bump) (size align offset : Nat),
+      BumpLegal vm ka km kx b size align offset → b.cursor ≠ 0 →
+      ∀ (res : Nat) (b' : Bump), bumpAllocAligned vm debug b size align offset = .ok res b' →
+        ResultGood b.region res size align offset) ∧
+    (∀ (vm : VMConsts) (debug : Bool) (ka km kx size align offset cell : Nat),
+      LosLegal vm ka km kx size align offset cell → cell ≠ 0 →
+      ∃ pages res, losAllocFull vm debug size align offset cell = some (pages, res) ∧
+        ResultGood (losAlloc cell pages 4096) res size align offset) ∧
+    (∀ (debug : Bool) (ka size align offset b : Nat) (blk : CellBlock),
+      align = 2^ka → 3 ≤ ka ∧ ka ≤ 6 → 8 ∣ offset → offset < 2^63 →
+      Mmtk.MsBins.alignedSize size align ≤ Mmtk.Gen.Bins.maxBinSize →
+      (debug = true → size % Mmtk.Gen.Bins.minAlign = 0) →
+      Mmtk.MsBins.miBin debug size align = some b → blk.cell = Mmtk.MsBins.binSize b →
+      8 ∣ blk.base → blk.base ≠ 0 → blk.base + 65536 + 64 < 2^63 →
+      (∀ k, k ∈ blk.freeList → k < Mmtk.Gen.Bins.blockBytes / Mmtk.MsBins.binSize b) →
+      ∀ cell res blk', cellAllocAligned Mmtk.MsBins.vm debug blk align offset = some (some (cell, res, blk')) →
+        ∃ k, cell = blk.base + k * blk.cell ∧
+          ResultGood (cellRegion blk.base blk.cell k) res size align offset) := by
+  refine ⟨?_, ?_, ?_⟩
+  · intro vm debug ka km kx b size align offset H hnz res b' h
+    exact (bump_alloc_result_good vm debug ka km kx b size align offset H hnz res b' h).1
+  · intro vm debug ka km kx size align offset cell H hnz
+    exact los_alloc_result_good vm debug ka km kx size align offset cell H hnz
+  · intro debug ka size align offset b blk h1 h2 h3 h4 h5 h6 h7 h8 h9 h10 h11 h12 cell res blk' h
+    rcases freelist_alloc_result_good debug ka size align offset b blk h1 h2 h3 h4 h5 h6 h7 h8 h9 h10 h11 h12
+      with ⟨_, e⟩ | ⟨k, cell0, res0, blk0, _, hc, e, hg, _⟩
+    · rw [e] at h; cases h
+    · rw [e] at h
+      cases h
+      exact ⟨k, hc, hg⟩
+
+/-! ## Hypotheses are satisfiable; boundary examples -/
+
+example : BumpLegal vmDefault 5 3 6 ⟨0x20000000010, 0x20000008000⟩ 152 32 8 :=
+  ⟨⟨rfl, rfl, rfl, by omega, ⟨1, rfl⟩, by omega, Nat.le_refl _⟩, Nat.dvd_of_mod_eq_zero (by decide),
+    by decide, by decide⟩
+example : bumpAllocAligned vmDefault true ⟨0x20000000010, 0x20000008000⟩ 152 32 8 =
+    .ok 0x20000000018 ⟨0x200000000b0, 0x20000008000⟩ := by decide
+example : padSpec 0x20000000010 32 8 = 8 := by decide
+/-- the last 152 bytes of the buffer: fits exactly; one more byte of padding would not -/
+example : bumpAllocAligned vmDefault true ⟨0x20000007f68, 0x20000008000⟩ 152 8 0 =
+    .ok 0x20000007f68 ⟨0x20000008000, 0x20000008000⟩ := by decide
+example : bumpAllocAligned vmDefault true ⟨0x20000007f68, 0x20000008000⟩ 152 16 0 = .slow := by decide
+/-- an illegal offset trips the debug assertion -/
+example : bumpAllocAligned vmDefault true ⟨0x20000000010, 0x20000008000⟩ 152 32 4 = .panic := by decide
+example : FreshLegal vmDefault 6 3 6 0x20000000000 32744 64 8 :=
+  ⟨⟨rfl, rfl, rfl, by omega, ⟨1, rfl⟩, by omega, Nat.le_refl _⟩, Nat.dvd_of_mod_eq_zero (by decide), by decide⟩
+example : LosLegal vmDefault 6 3 6 65536 64 8 0x30000000000 :=
+  ⟨⟨rfl, rfl, rfl, by omega, ⟨1, rfl⟩, by omega, Nat.le_refl _⟩, Nat.dvd_of_mod_eq_zero (by decide),
+    Nat.dvd_of_mod_eq_zero (by decide), by decide, by decide⟩
+example : losAllocFull vmDefault true 65536 64 8 0x30000000000 = some (17, 0x30000000038) := by decide
+/-- Immix: a 1-line hole (lines 3..4 of the block at `0x20000008000`) serves a 200-byte, 64-aligned request -/
+example : bumpAllocAligned vmDefault true (holeBump 0x20000008000 256 3 4) 200 64 0 =
+    .ok 0x20000008300 ⟨0x200000083c8, 0x20000008400⟩ := by decide
+/-- free-list: hypotheses of `freelist_alloc_result_good` for `(24, 16, 8)` on a block of bin 4 (32-byte cells) -/
+example : Mmtk.MsBins.alignedSize 24 16 ≤ Mmtk.Gen.Bins.maxBinSize ∧
+    Mmtk.MsBins.miBin true 24 16 = some 4 ∧ Mmtk.MsBins.binSize 4 = 32 ∧
+    (match cellAllocAligned Mmtk.MsBins.vm true ⟨0x40000000000, 32, [5, 2]⟩ 16 8 with
+      | some (some (c, r, b')) => (c, r, b'.base, b'.cell, b'.freeList)
+      | _ => (0, 0, 0, 0, [])) = (0x400000000a0, 0x400000000a8, 0x40000000000, 32, [2]) := by decide +kernel
 
 end Mmtk.AllocArith
